@@ -1255,7 +1255,7 @@ impl Property for C10 {
     type Case = Case;
 
     fn rule() -> String {
-        "Enumerated fault plans. Reader: each of ~85 crafted documents (many prefixes are complete documents; streams, null-like documents, content-free text after '...', multi-byte text, BOM, CRLF) x every fault position (the call that would deliver byte k, k in 0..=len; the n-th read call up to the call that reports EOF, plus one unreachable index) x 6 error kinds x {sticky, clean EOF afterwards} x chunking {1, 3, all} x {from_reader, with_deserializer_from_reader, read collected; for the struct target also from_reader_valid / _validate and read_valid / _validate} x fitting target types; every sequence of <= 3 lines over a 12-line alphabet (quick: all singles and pairs, two thirds of the triples, two of the three chunkings) x every position x entry points with kind / post-fault behaviour rotating; one 20 kB document with faults on a stride and around the 8 KiB / 16 KiB marks; end of input at every position inside a multi-byte character; max_reader_input_bytes in {0, 1, len-1, len, len+1, 2 len} and every value below len for documents under 200 bytes (plus len-4..len-2 for BOM inputs) with every chunking, and caps {0,1,7,100,4096,8192,8193,20000,100000} against 15 endless readers; random streams x random fault plans. Writer: each of 60 values (every serde data-model call, wrappers, anchors, block scalars) x 11 serializer option vectors x every failing write call n and every accepted byte count k x {all, 1, 3} bytes accepted per call x error kinds (and Ok(0)) x {to_io_writer, to_io_writer_with_options}. Oracle: DESIGN.md C10 (invoked fault => Err / iterator: Ok items are a prefix of the fault-free Ok items and an Err is yielded; fault never invoked => identical result; cap >= len => identical, cap < len => Err, bytes pulled <= cap + 16 KiB; writer: Err carrying the writer's error kind, accepted bytes a prefix of the fault-free output, short writes alone change nothing). Non-trivial: reader cases whose delivered prefix is itself accepted without error by the same entry point (only the deferred error check separates success from failure); cap cases with the cap within 1 of the length or whose capped prefix is a complete document; end of input inside a character; endless readers; writer cases whose fault is reached after at least one accepted call / byte. distinct = distinct case.".into()
+        "Enumerated fault plans. Reader: each of ~85 crafted documents (many prefixes are complete documents; streams, null-like documents, content-free text after '...', multi-byte text, BOM, CRLF) x every fault position (the call that would deliver byte k, k in 0..=len; the n-th read call up to the call that reports EOF, plus one unreachable index) x 6 error kinds x {sticky, clean EOF afterwards} x chunking {1, 3, all} x {from_reader, with_deserializer_from_reader, read collected; for the struct target also from_reader_valid / _validate and read_valid / _validate} x fitting target types; every sequence of <= 3 lines over a 12-line alphabet (quick: all singles and pairs, two thirds of the triples, two of the three chunkings) x every position x entry points with kind / post-fault behaviour rotating; one 20 kB document with faults on a stride and around the 8 KiB / 16 KiB marks; end of input at every position inside a multi-byte character; max_reader_input_bytes in {0, 1, len-1, len, len+1, 2 len} and every value below len for documents under 200 bytes (plus len-4..len-2 for BOM inputs) with every chunking, and caps {0,1,7,100,4096,8192,8193,20000,100000} against 15 endless readers; random streams x random fault plans. Writer: each of 60 values (every serde data-model call, wrappers, anchors, block scalars) x 11 serializer option vectors x every failing write call n and every accepted byte count k x {all, 1, 3} bytes accepted per call x error kinds (and Ok(0)) x {to_io_writer, to_io_writer_with_options}. Oracle: DESIGN.md C10 (invoked fault => Err / iterator: Ok items are a prefix of the fault-free Ok items and an Err is yielded; fault never invoked => identical result; cap >= len => identical, cap < len => Err, bytes pulled <= cap + 16 KiB; writer: Err carrying the writer's error kind, accepted bytes a prefix of the fault-free output, short writes alone change nothing). Non-trivial: reader cases whose delivered prefix is itself accepted without error by the same entry point (only the deferred error check separates success from failure); cap cases with the cap within 1 of the length or whose capped prefix is a complete document; end of input inside a character; endless readers; writer cases whose fault is reached after at least one accepted call / byte. distinct = distinct case. Writer faults include a transient one (only the n-th write call fails, later calls are accepted): nothing may be written after a failed write. Iterator results that are a proper prefix of the fault-free items count as a swallowed fault (an error item that the intact input produces as well is no report of the fault).".into()
     }
     fn assumptions() -> Vec<String> {
         vec![
